@@ -591,9 +591,21 @@ def zero_patterns(names, max_zero=None):
 
 
 def run(shape, args, ctx):
+    from engine.ctx import PropertyViolation
     world = World(ctx, shape['spec'], args)
     mons = [MONITORS[m] for m in shape['monitors']]
-    run_world(world, mons)
+    if shape.get('prop') != 'C03':
+        run_world(world, mons)
+        return
+    # C03 also owns "a finite-horizon run of a well-posed model always returns" (DESIGN 4.7)
+    try:
+        run_world(world, mons)
+    except (PropertyViolation, Truncated):
+        raise
+    except Exception as e:
+        import traceback
+        tb = traceback.format_exc().splitlines()
+        ctx.fail('run did not return: an exception escaped the simulator', f'{type(e).__name__}: {e} | ' + ' | '.join(tb[-4:]))
 
 
 # =====================================================================================================
@@ -621,6 +633,7 @@ class CycleMon(Monitor):
     def attach(self):
         w = self.w
         self.busy = {}      # device name -> dict(part, remaining, since) or None
+        self.pending_offset = {}
         self.done = {}      # device name -> set of ids of parts already finished there
         for n in w.order:
             d, k = w.dev[n], w.kind[n]
@@ -639,10 +652,19 @@ class CycleMon(Monitor):
         n = dev.name
         with ctx.notrace():
             ctx.require(self.busy[n] is None and dev._output is None, 'device accepted a part while holding another', n)
-            c = ctx.z(dev.cycle_time) + ctx.z(dev._next_cycle_time_offset)
+            # the one-shot offset is what the harness applied since this device's previous acceptance
+            off = self.pending_offset.get(n, 0)
+            self.pending_offset[n] = 0
+            c = ctx.z(dev.cycle_time) + off
             self.busy[n] = {'part': part, 'remaining': ctx.Max(0, c), 'since': w.now(), 'floored': c}
             ctx.goal_if('offset_floored_at_zero', c < 0)
             ctx.goal_if('cycle_changed_in_callback', ctx.z(dev.cycle_time) != ctx.z(w.val(self._spec_cycle(n))))
+
+    def after_op(self, i, op):
+        if op['k'] == 'offset':
+            n = op['dev']
+            self.pending_offset[n] = self.pending_offset.get(n, 0) + self.w.zval(op['amount'])
+            self.ctx.goal('offset_applied')
 
     def _spec_cycle(self, n):
         for d in self.w.spec['devices']:
